@@ -583,11 +583,13 @@ Qed.
 Lemma chtimes_ok s p t f : lookup s (normalize_path p) = Some f -> snd (m_step s (Chtimes p t)) = ROk.
 Proof. intros H. rewrite m_step_bump. cbn [snd m_step_raw]. unfold m_chtimes. now rewrite H. Qed.
 
-Lemma remove_spec s name lh dat : normalize_path name = name -> copying s name lh dat ->
+(* Remove of a regular file whose parent is registered (no handle needed: also what copyFile does after a Create
+   that failed while an older copy was there) *)
+Lemma remove_file_spec s name dat : normalize_path name = name -> file_at s name dat -> par_ok s name ->
   exists s', m_step s (Remove name) = (bump s', ROk) /\ lookup s' name = None /\ par_ok s' name /\
              mhandles s' = mhandles s /\ (forall r, r <> name -> lookup s' r = lookup s r).
 Proof.
-  intros Hn (g & gn & h & L & G & A & B & D & Hh & Hr & Ha & Hc & Ho & (p & pn & Lp & Gp & Ap & Bp)).
+  intros Hn (g & gn & L & G & A & B & D) (p & pn & Lp & Gp & Ap & Bp).
   rewrite m_step_bump. cbn [m_step_raw]. unfold m_remove. rewrite Hn, L.
   assert (Hnm : node_name s g = name) by (unfold node_name; now rewrite G).
   assert (Hfp : find_parent s g = Some p).
@@ -606,6 +608,18 @@ Proof.
   intros r Hr'. unfold lookup, set_data. cbn [mdata]. rewrite alist_get_del_other by exact Hr'.
   change (alist_get ?k (mdata ?x)) with (lookup x k). apply lookup_upd.
 Qed.
+
+Lemma remove_spec s name lh dat : normalize_path name = name -> copying s name lh dat ->
+  exists s', m_step s (Remove name) = (bump s', ROk) /\ lookup s' name = None /\ par_ok s' name /\
+             mhandles s' = mhandles s /\ (forall r, r <> name -> lookup s' r = lookup s r).
+Proof.
+  intros Hn Hc. destruct (copying_file_at s name lh dat Hc) as [F P]. exact (remove_file_spec s name dat Hn F P).
+Qed.
+
+(* Remove of a name without an entry: refused, nothing but the clock moves *)
+Lemma remove_missing s name : normalize_path name = name -> lookup s name = None ->
+  m_step s (Remove name) = (bump s, RErr (EW KNotExist)).
+Proof. intros Hn L. rewrite m_step_bump. cbn [m_step_raw]. unfold m_remove. now rewrite Hn, L. Qed.
 
 (* ---------------------------------------------------------------- the layer before a copy *)
 (* Either the parent directory of [name] is registered (a directory node with a child index) and
